@@ -357,9 +357,7 @@ where
     ensures
         // [C09.degree.in_degree_counts_the_stored_in_edges]
         !(self.specs.directed && self.knows(node_name)) ==> r.is_none(),
-        self.specs.directed && self.knows(node_name) ==> r.is_some() && exists|op: Seq<T>| #[trigger] op.no_duplicates()
-            && (forall|x: T| self.pred_names(node_name).contains(x) <==> #[trigger] op.contains(x))
-            && r.unwrap() == in_edge_lists(*self, node_name, op).flatten().len(),
+        self.specs.directed && self.knows(node_name) ==> r.is_some() && is_in_degree_of(*self, node_name, r.unwrap()),
 //@ end
 
 //@ extract fn src/graph/degree.rs get_node_out_degree props=C09,C20 ty=Graph
@@ -374,9 +372,7 @@ where
     ensures
         // [C09.degree.out_degree_counts_the_stored_out_edges]
         !(self.specs.directed && self.knows(node_name)) ==> r.is_none(),
-        self.specs.directed && self.knows(node_name) ==> r.is_some() && exists|os: Seq<T>| #[trigger] os.no_duplicates()
-            && (forall|x: T| self.succ_names(node_name).contains(x) <==> #[trigger] os.contains(x))
-            && r.unwrap() == out_edge_lists(*self, node_name, os).flatten().len(),
+        self.specs.directed && self.knows(node_name) ==> r.is_some() && is_out_degree_of(*self, node_name, r.unwrap()),
 //@ end
 
 //@ extract fn src/graph/degree.rs get_node_degree props=C09,C20 ty=Graph
@@ -718,3 +714,200 @@ vcast_usize_f64(graph.get_node_degree(n.name.clone()).unwrap())
         // [C09.degree_centrality.one_entry_per_node_degree_over_n_minus_1]
         degree_centrality_map(*graph, r@),
 //@ end
+
+// pairs (name of node i, value i) for i = 0..n make a map with exactly the node names as keys, node i's name carrying value i
+pub proof fn lemma_pairs_to_node_map<T: Eq + PartialOrd + Send + Sync, A: Clone, V>(g: Graph<T, A>, pairs: Seq<(T, V)>)
+    requires
+        g.wf_nodes(),
+        pairs.len() == g.n(),
+        forall|i: int| 0 <= i < pairs.len() ==> (#[trigger] pairs[i]).0 == g.nodes_vec@[i].name,
+    ensures
+        forall|k: T| #[trigger] map_of_pairs(pairs).contains_key(k) <==> g.knows(k),
+        forall|i: int| 0 <= i < pairs.len() ==> map_of_pairs(pairs)[g.nodes_vec@[i].name] == (#[trigger] pairs[i]).1,
+{
+    assert forall|a: int, b: int| 0 <= a < b < pairs.len() implies (#[trigger] pairs[a]).0 != (#[trigger] pairs[b]).0 by {
+        assert(g.nodes_map@[g.nodes_vec@[a].name] == a && g.nodes_map@[g.nodes_vec@[b].name] == b);
+    }
+    assert forall|k: T| #[trigger] map_of_pairs(pairs).contains_key(k) <==> g.knows(k) by {
+        lemma_map_of_pairs_keys(pairs, k);
+        if g.knows(k) {
+            let i = g.nodes_map@[k] as int;
+            assert(pairs[i].0 == k);
+        }
+        if map_of_pairs(pairs).contains_key(k) {
+            let i = choose|i: int| 0 <= i < pairs.len() && (#[trigger] pairs[i]).0 == k;
+            assert(g.nodes_map@.contains_key(g.nodes_vec@[i].name));
+        }
+    }
+    assert forall|i: int| 0 <= i < pairs.len() implies map_of_pairs(pairs)[g.nodes_vec@[i].name] == (#[trigger] pairs[i]).1 by {
+        lemma_map_of_pairs_value(pairs, i);
+    }
+}
+pub open spec fn is_in_degree_of<T: Eq + PartialOrd + Send + Sync, A: Clone>(g: Graph<T, A>, name: T, d: usize) -> bool {
+    exists|op: Seq<T>| #[trigger] op.no_duplicates() && (forall|x: T| g.pred_names(name).contains(x) <==> #[trigger] op.contains(x))
+        && d == in_edge_lists(g, name, op).flatten().len()
+}
+pub open spec fn is_out_degree_of<T: Eq + PartialOrd + Send + Sync, A: Clone>(g: Graph<T, A>, name: T, d: usize) -> bool {
+    exists|os: Seq<T>| #[trigger] os.no_duplicates() && (forall|x: T| g.succ_names(name).contains(x) <==> #[trigger] os.contains(x))
+        && d == out_edge_lists(g, name, os).flatten().len()
+}
+pub open spec fn in_degree_map<T: Eq + PartialOrd + Send + Sync, A: Clone>(g: Graph<T, A>, m: Map<T, usize>) -> bool {
+    &&& forall|k: T| #[trigger] m.contains_key(k) <==> g.knows(k)
+    &&& forall|k: T| #[trigger] m.contains_key(k) ==> is_in_degree_of(g, k, m[k])
+}
+pub open spec fn out_degree_map<T: Eq + PartialOrd + Send + Sync, A: Clone>(g: Graph<T, A>, m: Map<T, usize>) -> bool {
+    &&& forall|k: T| #[trigger] m.contains_key(k) <==> g.knows(k)
+    &&& forall|k: T| #[trigger] m.contains_key(k) ==> is_out_degree_of(g, k, m[k])
+}
+// the map has exactly one entry per node and node k carries its degree
+pub open spec fn degree_map<T: Eq + PartialOrd + Send + Sync, A: Clone>(g: Graph<T, A>, m: Map<T, usize>) -> bool {
+    &&& forall|k: T| #[trigger] m.contains_key(k) <==> g.knows(k)
+    &&& forall|k: T| #[trigger] m.contains_key(k) ==> is_degree_of(g, k, m[k])
+}
+
+impl<T, A> Graph<T, A>
+where
+    T: Eq + Clone + PartialOrd + Ord + Hash + Send + Sync + Display,
+    A: Clone,
+{
+//@ extract fn src/graph/degree.rs get_degree_for_all_nodes props=C09,C20 ty=Graph
+//@ rewrite
+-> HashMap<T, usize>
+//@ with
+-> (r: HashMap<T, usize>)
+//@ rewrite
+self.get_all_nodes()
+            .iter()
+            .map(|n| {
+//@ with
+let all_v = self.get_all_nodes();
+        let ghost av = all_v@;
+        let deg_fn = |n: &&Arc<Node<T, A>>| -> (o: (T, usize))
+            requires self.knows(n.name), self.wf_nodes(), self.wf_estore(), self.wf_index_sets(), self.wf_name_sets(), self.wf_name_store(), name_order_total::<T>(),
+            ensures o.0 == n.name, is_degree_of(*self, n.name, o.1),
+        {
+//@ rewrite
+            })
+            .collect()
+//@ with
+            };
+        let out = viter_map_collect_map(all_v, deg_fn);
+        proof {
+            let pairs = choose|pairs: Seq<(T, usize)>| pairs.len() == av.len() && (forall|i: int| 0 <= i < av.len() ==> call_ensures(deg_fn, (&av[i],), #[trigger] pairs[i]))
+                && out@ == map_of_pairs(pairs);
+            assert forall|i: int| 0 <= i < pairs.len() implies (#[trigger] pairs[i]).0 == self.nodes_vec@[i].name && is_degree_of(*self, self.nodes_vec@[i].name, pairs[i].1) by {
+                assert(call_ensures(deg_fn, (&av[i],), pairs[i]));
+            }
+            lemma_pairs_to_node_map(*self, pairs);
+            assert forall|k: T| #[trigger] out@.contains_key(k) implies is_degree_of(*self, k, out@[k]) by {
+                let i = self.nodes_map@[k] as int;
+                assert(out@[self.nodes_vec@[i].name] == pairs[i].1);
+            }
+        }
+        out
+//@ spec
+    requires
+        self.wf_nodes(), self.wf_estore(),
+        self.wf_index_sets(), self.wf_name_sets(), self.wf_name_store(),
+        name_order_total::<T>(),
+    ensures
+        // [C09.degree.all_nodes_map_has_each_node_with_its_degree]
+        degree_map(*self, r@),
+//@ end
+
+//@ extract fn src/graph/degree.rs get_in_degree_for_all_nodes props=C09,C20 ty=Graph
+//@ rewrite
+-> Result<HashMap<T, usize>, Error>
+//@ with
+-> (r: Result<HashMap<T, usize>, Error>)
+//@ rewrite
+Ok(self
+            .get_all_nodes()
+            .iter()
+            .map(|n| {
+//@ with
+let all_v = self.get_all_nodes();
+        let ghost av = all_v@;
+        let deg_fn = |n: &&Arc<Node<T, A>>| -> (o: (T, usize))
+            requires self.knows(n.name), self.specs.directed, self.wf_nodes(), self.wf_estore(), self.wf_index_sets(), self.wf_name_sets(), self.wf_name_store(),
+            ensures o.0 == n.name, is_in_degree_of(*self, n.name, o.1),
+        {
+//@ rewrite
+            })
+            .collect())
+//@ with
+            };
+        let out = viter_map_collect_map(all_v, deg_fn);
+        proof {
+            let pairs = choose|pairs: Seq<(T, usize)>| pairs.len() == av.len() && (forall|i: int| 0 <= i < av.len() ==> call_ensures(deg_fn, (&av[i],), #[trigger] pairs[i]))
+                && out@ == map_of_pairs(pairs);
+            assert forall|i: int| 0 <= i < pairs.len() implies (#[trigger] pairs[i]).0 == self.nodes_vec@[i].name && is_in_degree_of(*self, self.nodes_vec@[i].name, pairs[i].1) by {
+                assert(call_ensures(deg_fn, (&av[i],), pairs[i]));
+            }
+            lemma_pairs_to_node_map(*self, pairs);
+            assert forall|k: T| #[trigger] out@.contains_key(k) implies is_in_degree_of(*self, k, out@[k]) by {
+                let i = self.nodes_map@[k] as int;
+                assert(out@[self.nodes_vec@[i].name] == pairs[i].1);
+            }
+        }
+        let res: Result<HashMap<T, usize>, Error> = Ok(out);
+        proof { assert(res.unwrap()@ == out@); }
+        res
+//@ spec
+    requires
+        self.wf_nodes(), self.wf_estore(),
+        self.wf_index_sets(), self.wf_name_sets(), self.wf_name_store(),
+    ensures
+        // [C09.degree.all_nodes_in_degree_map]
+        !self.specs.directed ==> is_err_kind(r, ErrorKind::WrongMethod),
+        self.specs.directed ==> r.is_ok() && in_degree_map(*self, r.unwrap()@),
+//@ end
+
+//@ extract fn src/graph/degree.rs get_out_degree_for_all_nodes props=C09,C20 ty=Graph
+//@ rewrite
+-> Result<HashMap<T, usize>, Error>
+//@ with
+-> (r: Result<HashMap<T, usize>, Error>)
+//@ rewrite
+Ok(self
+            .get_all_nodes()
+            .iter()
+            .map(|n| {
+//@ with
+let all_v = self.get_all_nodes();
+        let ghost av = all_v@;
+        let deg_fn = |n: &&Arc<Node<T, A>>| -> (o: (T, usize))
+            requires self.knows(n.name), self.specs.directed, self.wf_nodes(), self.wf_estore(), self.wf_index_sets(), self.wf_name_sets(), self.wf_name_store(),
+            ensures o.0 == n.name, is_out_degree_of(*self, n.name, o.1),
+        {
+//@ rewrite
+            })
+            .collect())
+//@ with
+            };
+        let out = viter_map_collect_map(all_v, deg_fn);
+        proof {
+            let pairs = choose|pairs: Seq<(T, usize)>| pairs.len() == av.len() && (forall|i: int| 0 <= i < av.len() ==> call_ensures(deg_fn, (&av[i],), #[trigger] pairs[i]))
+                && out@ == map_of_pairs(pairs);
+            assert forall|i: int| 0 <= i < pairs.len() implies (#[trigger] pairs[i]).0 == self.nodes_vec@[i].name && is_out_degree_of(*self, self.nodes_vec@[i].name, pairs[i].1) by {
+                assert(call_ensures(deg_fn, (&av[i],), pairs[i]));
+            }
+            lemma_pairs_to_node_map(*self, pairs);
+            assert forall|k: T| #[trigger] out@.contains_key(k) implies is_out_degree_of(*self, k, out@[k]) by {
+                let i = self.nodes_map@[k] as int;
+                assert(out@[self.nodes_vec@[i].name] == pairs[i].1);
+            }
+        }
+        let res: Result<HashMap<T, usize>, Error> = Ok(out);
+        proof { assert(res.unwrap()@ == out@); }
+        res
+//@ spec
+    requires
+        self.wf_nodes(), self.wf_estore(),
+        self.wf_index_sets(), self.wf_name_sets(), self.wf_name_store(),
+    ensures
+        // [C09.degree.all_nodes_out_degree_map]
+        !self.specs.directed ==> is_err_kind(r, ErrorKind::WrongMethod),
+        self.specs.directed ==> r.is_ok() && out_degree_map(*self, r.unwrap()@),
+//@ end
+}
